@@ -377,4 +377,3 @@ func (ex *Exec) assumeInferredFrames(st *State, pre *State, fi *FuncInfo, ms *Mo
 		st.assume(Forall([]*Term{r}, Implies(And(cond...), Eq(Select(cur, r), Select(before[h], r))), []*Term{Select(cur, r)}))
 	}
 }
-
